@@ -546,9 +546,9 @@ def check_perm(ctx, spec):
 def campaigns(ctx):
     thorough = ctx.tier == 'thorough'
     return [
-        Campaign('history', history_spec(False), check_history, 2200, 6000),
-        Campaign('clean', history_spec(True), check_history, 2200, 6000),
-        Campaign('perm', perm_spec(thorough), check_perm, 500, 200),
+        Campaign('history', history_spec(False), check_history, 2200, 10000),
+        Campaign('clean', history_spec(True), check_history, 2200, 10000),
+        Campaign('perm', perm_spec(thorough), check_perm, 500, 300),
     ]
 
 
